@@ -249,9 +249,17 @@ def main(argv):
         pf = check_props_file(prop) if okc else {"ok": False, "theorems": [], "print_assumptions": 0, "closed": 0, "axioms": [], "log": outc[-3000:]}
         forb = scan_forbidden()
         okd, outd = build_driver() if okc else (False, "coq build failed")
+        if not okc and prop.get("search_on_broken_proof"):
+            # a proof obligation over regenerated facts broke: the models (Dispatch.vo) may still
+            # compile, and the run-time search (race detector / watchdog) is what finds the failing input
+            rcx, _ = sh("timeout 3000 make -k -j16 theories/Extract/Dispatch.vo", cwd=COQ, timeout=3100)
+            if rcx == 0:
+                okd, outd = build_driver()
         okh, outh = build_gen_and_harness()
-        if prop.get("race") and tier == "thorough":
+        if prop.get("race") and (tier == "thorough" or prop.get("race_quick")):
             okr, outr = build_gen_and_harness(race=True, name="zapdrive-race")
+            if not okr:
+                notes.append("race-instrumented harness did not build: " + outr[-500:])
         chk = None
         if tier == "thorough" and okc and prop.get("coqchk", True) and os.environ.get("VERIF_NO_COQCHK") != "1":
             mod = "Zap." + prop["coq_props"].replace("theories/", "").replace(".v", "").replace("/", ".")
